@@ -39,13 +39,13 @@ def runConf (st : Top) : List String :=
   match st.conf with
   | none => ["bad-op"]
   | some (b, cap, io, roles) =>
-    let (s0, notes) := mkInit b cap io st.fix roles
-    let (s, evs, ok) := runSched step s0 st.sched
-    let status := if !ok then "replay-diverged" else if allDone s then "ok"
-                  else if !anyEnabled s then "deadlock" else "step-limit"
-    let sl := if status = "deadlock" then stateLines s else []
-    [s!"schedule {" ".intercalate st.toks}"] ++ notes ++ evs ++ sl ++
-      [s!"end {status} steps={st.sched.length}", outcome s]
+    let cfg := mkCfg b cap io st.fix roles
+    let (s, evs, ok) := runSched (step cfg) (mkInit cfg) st.sched
+    let status := if !ok then "replay-diverged" else if allDone cfg s then "ok"
+                  else if !anyEnabled cfg s then "deadlock" else "step-limit"
+    let sl := if status = "deadlock" then stateLines cfg s else []
+    [s!"schedule {" ".intercalate st.toks}"] ++ initNotes cfg ++ evs ++ sl ++
+      [s!"end {status} steps={st.sched.length}", outcome cfg s]
 
 def stepLine (st : Top) : List String → Top × String
   | "conf" :: b :: cap :: io :: roles =>
